@@ -1,4 +1,5 @@
 import Acra.Lemmas.PES
+import Acra.Lemmas.ReviewC06
 import Acra.Spec.MPEG
 namespace Acra.Props.C06
 open Acra.Py Acra.Model.MPEGTS Acra.Model.PES Acra.Gen.PES Acra.Lemmas.MPEGTS Acra.Lemmas.PES
@@ -75,5 +76,93 @@ def headerExample : PES :=
 
 example : PES.ext headerExample = some (0x81, 0x80, [0x21, 0, 1, 0, 1]) ∧ Pkt_used (PES_pkt headerExample) = 188 ∧
     headerExample.pkt.sync = 0x47 := by decide +kernel
+
+/-! ### review additions: joint witnesses and the excluded inputs -/
+
+/-- header-less, payload only, three data bytes followed by stuffing (the first data byte is 0x80, but the packet is
+    not exactly filled, so the heuristic does not fire) -/
+def pesPlain : PES :=
+  { PES.fresh with pkt := { Pkt.fresh with adaption_ctrl := 1 }, streamid := 224, pesdata := [0x80, 2, 3] }
+
+/-- header-less, filled exactly through 167 bytes of adaptation stuffing -/
+def pesFill : PES :=
+  { PES.fresh with
+    pkt := { Pkt.fresh with adaption_ctrl := 3, adaption_field := some { AF.fresh with length := 167 } },
+    streamid := 224, pesdata := [0x47, 1, 2, 3, 4, 5, 6, 7, 8, 9] }
+
+/-- joint witnesses for `PES_pack_layout` and `PES_roundtrip_partial` (all seven hypotheses), without and with
+    adaptation stuffing -/
+example : PES_WF pesPlain ∧ pesPlain.pkt.sync = 0x47 ∧ (pesPlain.pkt.adaption_ctrl = 1 ∨ pesPlain.pkt.adaption_ctrl = 3) ∧
+    PES.ext pesPlain = none ∧ Pkt_used (PES_pkt pesPlain) ≤ 188 ∧ 3 ≤ (PES_tail pesPlain).length ∧ ¬ looksLikeHeader pesPlain := by
+  decide +kernel
+example : PES_WF pesFill ∧ pesFill.pkt.sync = 0x47 ∧ (pesFill.pkt.adaption_ctrl = 1 ∨ pesFill.pkt.adaption_ctrl = 3) ∧
+    PES.ext pesFill = none ∧ Pkt_used (PES_pkt pesFill) = 188 ∧ 3 ≤ (PES_tail pesFill).length ∧ ¬ looksLikeHeader pesFill := by
+  decide +kernel
+
+/-- with the optional header, filled exactly through 100 bytes of adaptation stuffing -/
+def headerFill : PES :=
+  { headerExample with
+    pkt := { Pkt.fresh with adaption_ctrl := 3, pid := 0x104, adaption_field := some { AF.fresh with length := 100 } },
+    pesdata := List.replicate 69 7 }
+
+/-- joint witnesses for `PES_roundtrip_header` (all hypotheses), without and with adaptation stuffing -/
+example : PES_WF headerExample ∧ headerExample.pkt.sync = 0x47 ∧
+    (headerExample.pkt.adaption_ctrl = 1 ∨ headerExample.pkt.adaption_ctrl = 3) ∧
+    PES.ext headerExample = some (0x81, 0x80, [0x21, 0, 1, 0, 1]) ∧ 0x81 / 16 = 8 ∧ Pkt_used (PES_pkt headerExample) = 188 := by
+  decide +kernel
+example : PES_WF headerFill ∧ headerFill.pkt.sync = 0x47 ∧
+    (headerFill.pkt.adaption_ctrl = 1 ∨ headerFill.pkt.adaption_ctrl = 3) ∧
+    PES.ext headerFill = some (0x81, 0x80, [0x21, 0, 1, 0, 1]) ∧ 0x81 / 16 = 8 ∧ Pkt_used (PES_pkt headerFill) = 188 := by
+  decide +kernel
+
+/-- what `h9` excludes (E7 reached inside a 188-byte packet): a header-less PES packet with fewer than 3 bytes after
+    the 6-byte prefix — here 2 data bytes, the packet filled exactly by 175 bytes of adaptation stuffing — is well
+    formed, packs to 188 bytes, and `PES.unpack` of its own encoding raises `struct.error` (the 3-byte peek at
+    payload offset 6) -/
+example :
+    let s : PES :=
+      { PES.fresh with
+        pkt := { Pkt.fresh with adaption_ctrl := 3, adaption_field := some { AF.fresh with length := 175 } },
+        streamid := 224, pesdata := [1, 2] }
+    PES_WF s ∧ PES.ext s = none ∧ Pkt_used (PES_pkt s) = 188 ∧ (PES_tail s).length = 2 ∧ ¬ looksLikeHeader s ∧
+    (match (PES.unpack PES.fresh (Pkt_bytes (PES_pkt s))).2 with | .error .struct => true | _ => false) = true := by
+  decide +kernel
+
+/-- what `hfull` of `PES_roundtrip_header` excludes (corollary of K2): a packet WITH the optional header that does not
+    fill the TS packet is decoded as header-less, the header bytes turning up in `pesdata` -/
+example :
+    let s : PES := { headerExample with pesdata := [1, 2, 3] }
+    PES_WF s ∧ PES.ext s = some (0x81, 0x80, [0x21, 0, 1, 0, 1]) ∧ Pkt_used (PES_pkt s) < 188 ∧
+    (PES.unpack PES.fresh (Pkt_bytes (PES_pkt s))).1.extension_w1 = none ∧
+    (PES.unpack PES.fresh (Pkt_bytes (PES_pkt s))).1.pesdata.take 11 = [0x81, 0x80, 5, 0x21, 0, 1, 0, 1, 1, 2, 3] := by
+  decide +kernel
+
+/-- **PES re-encode, with the optional header**: under the hypotheses of `PES_roundtrip_header`, `PES.pack` of the
+    decoded object (the first component of that theorem's result) succeeds and reproduces the 188 bytes -/
+theorem PES_reencode_header (s : PES) (h : PES_WF s) (w1 w2 : Nat) (hd : Bytes)
+    (he : PES.ext s = some (w1, w2, hd)) (hfull : Pkt_used (PES_pkt s) = 188) :
+    (PES.pack { pkt := Pkt_decoded (PES_pkt s), streamid := s.streamid, pesdata := s.pesdata,
+                extension_w1 := some w1, extension_w2 := some w2, header_data := some hd }).2 =
+      .ok (Pkt_bytes (PES_pkt s)) := by
+  have hst : Pkt_stuffing (PES_pkt s) = [] := by simp [Pkt_stuffing, hfull]
+  obtain ⟨b', hb', _, heq⟩ := Acra.Lemmas.ReviewC06.PES_reencode_gen s
+    { pkt := Pkt_decoded (PES_pkt s), streamid := s.streamid, pesdata := s.pesdata,
+      extension_w1 := some w1, extension_w2 := some w2, header_data := some hd }
+    h (by omega) rfl rfl (by rw [hst, List.append_nil]) (by rw [he]; rfl)
+  rw [hb', heq hst]
+
+/-- **PES re-encode, header-less**: `PES.pack` of the object `PES_roundtrip_partial` decodes to (data followed by the
+    stuffing) succeeds with 188 bytes, and reproduces the bytes when the packet was exactly filled -/
+theorem PES_reencode_headerless (s : PES) (h : PES_WF s) (hne : PES.ext s = none) (hf : Pkt_used (PES_pkt s) ≤ 188) :
+    ∃ b', (PES.pack { pkt := Pkt_decoded (PES_pkt s), streamid := s.streamid,
+                      pesdata := s.pesdata ++ List.replicate (188 - Pkt_used (PES_pkt s)) 0xFF,
+                      extension_w1 := none, extension_w2 := none, header_data := none }).2 = .ok b' ∧
+      b'.length = 188 ∧ (Pkt_used (PES_pkt s) = 188 → b' = Pkt_bytes (PES_pkt s)) := by
+  obtain ⟨b', hb', hl, heq⟩ := Acra.Lemmas.ReviewC06.PES_reencode_gen s
+    { pkt := Pkt_decoded (PES_pkt s), streamid := s.streamid,
+      pesdata := s.pesdata ++ List.replicate (188 - Pkt_used (PES_pkt s)) 0xFF,
+      extension_w1 := none, extension_w2 := none, header_data := none }
+    h hf rfl rfl rfl (by rw [hne]; rfl)
+  exact ⟨b', hb', hl, fun hfull => heq (by simp [Pkt_stuffing, hfull])⟩
 
 end Acra.Props.C06
